@@ -18,7 +18,7 @@ import bookgen, bookrun
 
 RULE = ('every name of the function table x argument counts 0..4 x tuples over {numbers, numeric text, text, empty text, '
         'logicals, blank reference, #N/A, #DIV/0!, 1x3 / 3x1 / 2x2 arrays with mixed content}; arrays in one call have '
-        'compatible shapes (incompatible shapes are a separate stream). Non-trivial = at least one argument is not a plain '
+        'compatible shapes (incompatible shapes are a separate stream); a further stream calls every function with 1-3 arguments of extreme magnitude (1e200, 1e308, 1e-300, 710, 171, ...; scalars and numeric arrays) and requires finite numbers or error values. Non-trivial = at least one argument is not a plain '
         'number; distinct = distinct (name, arguments).')
 
 # functions that legitimately return a non-error for an error argument, and why
@@ -199,6 +199,39 @@ def check(run):
                         n_exempt_hits += 1
                     else:
                         run.violation('%s loses the error value of an argument: result %s' % (name, show(r) if not isinstance(r, np.ndarray) else show(r)), case)
+    # ---- extreme magnitudes: results stay finite numbers or become error values ------------------------------------------------
+    big = [1e200, -1e200, 1e308, -1e308, 1e-300, 1e154, 709.0, 710.0, 171.0, 1e5, 2.0, 0.5, -1.0, 0.0]
+
+    def big_arr(shape):
+        a = np.empty(shape, object)
+        for i in range(shape[0]):
+            for j in range(shape[1]):
+                a[i, j] = rnd.choice(big)
+        return a
+    per_big = 6 if quick else 60
+    for name in names:
+        f = fn_of(name)
+        for k in range(1, 4):
+            if not admissible.get((name, k)):
+                continue
+            for rep in range(per_big):
+                shape = rnd.choice([(1, 1), (2, 2), (1, 2), (2, 1)])
+                args = [rnd.choice(big) if rnd.random() < 0.5 else big_arr(rnd.choice([shape, (1, 1)])) for _ in range(k)]
+                case = {'function': name, 'args': [show(a) for a in args], 'class': 'extreme-magnitudes'}
+                run.count(1, (name, json.dumps(case['args'], default=str)), True, 'extreme-magnitudes')
+                try:
+                    r = timed(f, args)
+                except Timeout:
+                    run.violation('%s does not return within 20 s' % name, case)
+                    continue
+                except Exception as ex:
+                    run.violation('%s raised %s: %s' % (name, type(ex).__name__, str(ex)[:80]), case)
+                    continue
+                r = getattr(r, 'value', r)
+                if r is sh.NONE or (isinstance(r, tuple) and all(x is sh.NONE for x in r)):
+                    continue
+                if not ok_value(r):
+                    run.violation('%s returns something that is not an Excel value: %r' % (name, r if not isinstance(r, np.ndarray) else r.tolist()), case)
     # ---- incompatible shapes ---------------------------------------------------------------------------------------------
     for name in rnd.sample(names, 40 if quick else len(names)):
         f = fn_of(name)
